@@ -384,21 +384,22 @@ func c08peval(r *verifkit.Result, c *c08pcase) (out []c08pviol) {
 		}
 	}
 
-	// reassembly, fast mode (exact mode: part 0, where the optimum is known)
-	if c.U != "" && c.Fast && c08pisACGT(c.U) {
+	// reassembly of error-free reads (same conditions as part 0: the true alignment is the unique
+	// optimum of the harness's own DP; fast mode: and its offset strictly maximises the 4-mer score)
+	if c.U != "" && c08pisACGT(c.U) {
 		d0 := c.B0 - c.A0
 		ovl := min(c.A0+la, c.B0+lb) - max(c.A0, c.B0)
 		leftGeom := c.A0 == 0 && c.B0+lb == len(c.U)
 		rightGeom := c.B0 == 0 && c.A0+la == len(c.U)
-		if ovl >= 1 && ovl >= c.MinOverlap && (leftGeom || rightGeom) && c08pfourmerStrict(c.A, c.B, c.Rel, d0) {
+		if ovl >= 1 && ovl >= c.MinOverlap && (leftGeom || rightGeom) && (!c.Fast || c08pfourmerStrict(c.A, c.B, c.Rel, d0)) {
 			noq0 := true
 			for _, q := range append(append([]int{}, c.QA...), c.QB...) {
 				if q == 0 {
 					noq0 = false
 				}
 			}
-			if noq0 || c.MinIdentity <= 0 {
-				r.Count("reassembly_demanded_fast", 1)
+			if (noq0 || c.MinIdentity <= 0) && c08punique(c, d0) {
+				r.Count("reassembly_demanded_"+mode, 1)
 				if gotMode != "alignment" || seq != c.U {
 					g := ":A-starts-first"
 					if d0 < 0 {
@@ -406,13 +407,138 @@ func c08peval(r *verifkit.Result, c *c08pcase) (out []c08pviol) {
 					} else if d0 == 0 {
 						g = ":identical-starts"
 					}
-					add("AssemblePESequences/fast/reassembly"+g, "error-free reads cut from %s (A at %d, B at %d, overlap %d) give mode=%s sequence %s (%s)",
+					add("AssemblePESequences/"+mode+"/reassembly"+g, "error-free reads cut from %s (A at %d, B at %d, overlap %d) give mode=%s sequence %s (%s)",
 						c.U, c.A0, c.B0, ovl, gotMode, seq, geom)
 				}
 			}
 		}
 	}
 	return
+}
+
+// ---- independent DP on the package's scoring tables (read through the verif hook of obialign) ----
+
+func c08pclamp(v int) int {
+	if v < -(1 << 40) {
+		return -(1 << 40)
+	}
+	if v > 1<<40 {
+		return 1 << 40
+	}
+	return v
+}
+
+func c08ppair(a, qa, b, qb byte, scale float64) int {
+	mt, mst, pmt := obialign.VerifC08Tables()
+	pm := pmt[a&31][b&31]
+	mm := c08pclamp(mt[qa][qb])
+	mis := c08pclamp(mst[qa][qb])
+	switch int(pm * 100) {
+	case 100:
+		return mm
+	case 0:
+		return int(float64(mis)*scale + 0.5)
+	}
+	return int(pm*float64(mm) + (1-pm)*float64(mis)*scale + 0.5)
+}
+
+func c08pgap(gap, scale float64) int {
+	_, mst, _ := obialign.VerifC08Tables()
+	return int(scale*gap*float64(mst[40][40]) + 0.5)
+}
+
+// optimum and number of optimal alignments under the left / right end-gap-free scheme
+func c08pdp(c *c08pcase, isLeft bool) (int, int) {
+	la, lb := len(c.A), len(c.B)
+	gp := c08pgap(c.Gap, c.Scale)
+	const neg = -1 << 60
+	S := make([][]int, la+1)
+	N := make([][]int, la+1)
+	for i := range S {
+		S[i] = make([]int, lb+1)
+		N[i] = make([]int, lb+1)
+		for j := range S[i] {
+			S[i][j] = neg
+		}
+	}
+	S[0][0], N[0][0] = 0, 1
+	upd := func(i, j, v, n int) {
+		if v > S[i][j] {
+			S[i][j], N[i][j] = v, n
+		} else if v == S[i][j] {
+			N[i][j] = min(N[i][j]+n, 1000000)
+		}
+	}
+	for i := 0; i <= la; i++ {
+		for j := 0; j <= lb; j++ {
+			if S[i][j] == neg {
+				continue
+			}
+			v, n := S[i][j], N[i][j]
+			if i < la {
+				cost := gp
+				if (isLeft && j == 0) || (!isLeft && j == lb) {
+					cost = 0
+				}
+				upd(i+1, j, v+cost, n)
+			}
+			if j < lb {
+				cost := gp
+				if (isLeft && i == la) || (!isLeft && i == 0) {
+					cost = 0
+				}
+				upd(i, j+1, v+cost, n)
+			}
+			if i < la && j < lb {
+				upd(i+1, j+1, v+c08ppair(c.A[i], byte(c.QA[i]), c.B[j], byte(c.QB[j]), c.Scale), n)
+			}
+		}
+	}
+	return S[la][lb], N[la][lb]
+}
+
+// score of the gap-free alignment putting B at offset d0 of A, under one scheme
+func c08ptrueScore(c *c08pcase, d0 int, isLeft bool) int {
+	la, lb := len(c.A), len(c.B)
+	gp := c08pgap(c.Gap, c.Scale)
+	i, j, s := 0, 0, 0
+	if d0 > 0 { // A-only columns first: free in the left scheme
+		if !isLeft {
+			s += d0 * gp
+		}
+		i = d0
+	} else if d0 < 0 { // B-only columns first: free in the right scheme
+		if isLeft {
+			s += -d0 * gp
+		}
+		j = -d0
+	}
+	for i < la && j < lb {
+		s += c08ppair(c.A[i], byte(c.QA[i]), c.B[j], byte(c.QB[j]), c.Scale)
+		i++
+		j++
+	}
+	if i < la && isLeft { // A-only tail: free in the right scheme
+		s += (la - i) * gp
+	}
+	if j < lb && !isLeft { // B-only tail: free in the left scheme
+		s += (lb - j) * gp
+	}
+	return s
+}
+
+// is the true alignment THE unique optimum over both schemes
+func c08punique(c *c08pcase, d0 int) bool {
+	optL, cntL := c08pdp(c, true)
+	optR, cntR := c08pdp(c, false)
+	opt := max(optL, optR)
+	if optL == opt && (c08ptrueScore(c, d0, true) != opt || cntL != 1) {
+		return false
+	}
+	if optR == opt && (c08ptrueScore(c, d0, false) != opt || cntR != 1) {
+		return false
+	}
+	return true
 }
 
 func c08pquals(pat string, n int, isB bool) []int {
@@ -645,4 +771,5 @@ func TestVerifC08P(t *testing.T) {
 	r.RequireNonVacuous("mode_decided_join")
 	r.RequireNonVacuous("mode_decided_alignment")
 	r.RequireNonVacuous("reassembly_demanded_fast")
+	r.RequireNonVacuous("reassembly_demanded_exact")
 }
